@@ -30,7 +30,12 @@ ASSUMPTIONS = [
 ]
 TRUSTED = ["std::queue/std::string::erase semantics (modelled, not verified)",
            "the deterministic-scheduler exploration of DESIGN.md 4.3 is replaced by real-thread runs (property only) - the interleaving coverage of the "
-           "correspondence is therefore the sequential one; all interleavings are covered by the theorems"]
+           "correspondence is therefore the sequential one; all interleavings are covered by the theorems",
+           "the transcript parser of Drive/C02.lean (lines -> typed observations AsyncQ.Obs; the predicate itself is Spec/C02.lean and is "
+           "covered by spec_holds_on_model) and the byte-stream parser specMt of the multi-threaded runs (stays in the driver, enters the "
+           "spec only as Obs.external, not covered by spec_holds_on_model)",
+           "spec_holds_on_model quantifies over sequential API histories (Send = enq;arm, Step = writable;disarm or unregister - the "
+           "compositions the correspondence uses, mSend/mWritable) and assumes the kernel does not answer 0 to an unscripted send() (Op.sane)"]
 ALL_TAGS = ["enq.empty", "enq.nonempty", "w.full", "w.partial", "w.fail", "w.zero", "disarm", "unregister",
             "arm.unregistered", "destroy.pending", "destroy.idle", "drain", "nobuf", "mt"]
 EXHAUSTIVE = {"thorough": False}
@@ -143,6 +148,11 @@ LEVEL_TEXT = ("Machine-checked Lean 4 theorems about an executable model of the 
               "(asyncq_future_origin), resolved futures never change (asyncq_future_once), POLLOUT armed or an arming thread on its way whenever the "
               "queue is non-empty incl. the empty/refill race (asyncq_armed), strict progress per writable event (asyncq_drains, asyncq_no_new_work), "
               "buffer returned iff future resolved (asyncq_buffer_return), destruction breaks every pending promise (asyncq_destroy). "
+              "The run-time property predicate is a typed, total Lean function of its own module (Spec/C02.lean: Obs, specStep, specRun; the driver "
+              "only parses lines into Obs and calls it) and is itself a theorem of the model: spec_holds_on_model (= model_satisfies_spec) proves that "
+              "it accepts the observations the model produces (modelTrace, built from the same step function) for every history of Sends, driver "
+              "steps with arbitrary poll readiness and send() answers, peer reads, peer close, pool exhaustion and destruction, of any length - a "
+              "spec failure on the implementation is therefore a difference between implementation and model, never an over-strict oracle. "
               "Tied to /repo on every run: the real SocketTcpAsync/Driver are driven over loopback against a raw peer under a send() script "
               "(short k / fail / zero, and real partial writes against a small SO_SNDBUF); futures, pool occupancy, send() arguments and the peer's "
               "bytes are compared with the model after every op, and the property (an ideal FIFO pipeline on the same OS answers) is evaluated on "
